@@ -115,11 +115,10 @@ theorem memWrite_ok (q : Quirks) (o : Nat) (v : ByteArray) (s : Frame)
   simp only [memWrite, bind, M.bind, pure, M.pure, getF, takeMem, setMem, h1, h2, h3, h4, if_false, Bool.false_eq_true,
     ensureCap_ok _ _ hcap, ite_app, wr]
 
-/-- a zero-length write in specification mode: the memory is not touched (only the deviation marker may be set) -/
+/-- a zero-length write in specification mode: nothing is touched -/
 theorem memWrite_zero_spec (q : Quirks) (o : Nat) (v : ByteArray) (s : Frame) (hq : q.zeroLenGrows = false) (hv : v.size = 0) :
-    (memWrite q o v s).val = (some (), if o > s.mem.size then { s with dev := if s.dev == 0 then 3 else s.dev, devs := s.devs ||| (1 <<< 3) } else s) := by
-  simp only [memWrite, bind, M.bind, pure, M.pure, getF, noteDev, hq, hv, ite_app, BEq.rfl, Bool.not_false, Bool.and_self, if_true]
-  split <;> rfl
+    (memWrite q o v s).val = (some (), s) := by
+  simp only [memWrite, bind, M.bind, pure, M.pure, hq, hv, ite_app, BEq.rfl, Bool.not_false, Bool.and_self, if_true]
 
 /-- `Memory.Write` beyond the memory cap (no uint64 wrap-around): a Generic error, nothing written -/
 theorem memWrite_beyond (q : Quirks) (o : Nat) (v : ByteArray) (s : Frame) (hv : 0 < v.size)
@@ -160,9 +159,8 @@ theorem memRead_ok (q : Quirks) (o l : Nat) (s : Frame) (hl : 0 < l ∨ q.zeroLe
 
 /-- a zero-length read in specification mode: the empty string, the memory is not touched -/
 theorem memRead_zero_spec (q : Quirks) (o : Nat) (s : Frame) (hq : q.zeroLenGrows = false) :
-    (memRead q o 0 s).val = (some .empty, if o > s.mem.size then { s with dev := if s.dev == 0 then 3 else s.dev, devs := s.devs ||| (1 <<< 3) } else s) := by
-  simp only [memRead, bind, M.bind, pure, M.pure, getF, noteDev, hq, ite_app, BEq.rfl, Bool.not_false, Bool.and_self, if_true]
-  split <;> rfl
+    (memRead q o 0 s).val = (some .empty, s) := by
+  simp only [memRead, bind, M.bind, pure, M.pure, hq, ite_app, BEq.rfl, Bool.not_false, Bool.and_self, if_true]
 
 /-- the bytes `Memory.Read` returns -/
 theorem bl_read (m : ByteArray) (o l : Nat) (h : o + l < 2 ^ 65) :
